@@ -1092,6 +1092,15 @@ func (sc *serverConn) writeFrameFromHandler(wm frameWriteMsg) error {
 func (sc *serverConn) writeFrame(wm frameWriteMsg) {
 	sc.serveG.Check()
 
+	if st := wm.stream; st != nil && st.state == stateClosed {
+		// The stream was closed (e.g. reset) while its handler was still
+		// writing. Ignore the frame: startFrameWrite would skip it, but
+		// only after the scheduler has taken its DATA bytes from the
+		// conn-level send window for good. The handler learns about the
+		// close from st.cw; wm.done is not signaled.
+		return
+	}
+
 	if wm.isControl() {
 		sc.queuedControlFrames++
 	}
